@@ -188,43 +188,60 @@ def print_assumptions(rel_v, workdir):
     return rc == 0, results, out
 
 
-def eval_bools(import_lines, exprs, workdir, tag, shard=300, timeout=1200):
+def eval_bools(import_lines, exprs, workdir, tag, shard=300, timeout=1200, width=1, shard_bytes=220000):
     """Evaluate Coq boolean expressions by vm_compute; returns the set of
-    indices whose value is not `true`.  Raises HarnessError if a file does
-    not compile (that is a defect of the harness, never a verdict)."""
+    indices whose value is not `true`.  With width > 1 every expression is a
+    `list bool` of exactly that length and the returned indices are
+    i * width + component.  Files are sharded by count and by size so that all
+    cores are used.  Raises HarnessError if a file does not compile (that is a
+    defect of the harness, never a verdict)."""
     os.makedirs(workdir, exist_ok=True)
     files = []
-    for k in range(0, len(exprs), shard):
-        chunk = exprs[k:k + shard]
-        name = '%s_%d' % (tag, k // shard)
+    k = 0
+    while k < len(exprs):
+        size = 0
+        j = k
+        while j < len(exprs) and j - k < shard and (j == k or size + len(exprs[j]) <= shard_bytes):
+            size += len(exprs[j])
+            j += 1
+        chunk = exprs[k:j]
+        name = '%s_%d' % (tag, len(files))
         path = os.path.join(workdir, name + '.v')
         with open(path, 'w', encoding='utf-8') as f:
             f.write('\n'.join(import_lines) + '\n')
             f.write('From Coq Require Import ZArith List Bool String.\nImport ListNotations.\nOpen Scope string_scope.\nOpen Scope Z_scope.\n')
-            f.write('Definition cs : list bool := [\n')
-            f.write(';\n'.join(chunk))
-            f.write('\n].\n')
+            if width == 1:
+                f.write('Definition cs : list bool := [\n')
+                f.write(';\n'.join(chunk))
+                f.write('\n].\n')
+            else:
+                f.write('Definition cs : list bool := List.concat [\n')
+                f.write(';\n'.join(chunk))
+                f.write('\n].\n')
             f.write('Fixpoint bad (i : nat) (l : list bool) : list nat := match l with [] => [] '
                     '| b :: r => if b then bad (S i) r else i :: bad (S i) r end.\n')
-            f.write('Eval vm_compute in (bad 0 cs).\n')
-        files.append((k, path))
+            f.write('Eval vm_compute in (List.length cs, bad 0 cs).\n')
+        files.append((k, len(chunk), path))
+        k = j
 
     def one(item):
-        k, path = item
+        k0, n, path = item
         rc, out = sh(['timeout', str(timeout), 'coqc', '-Q', os.path.join(COQ, 'theories'), 'DM', path],
                      timeout + 60, cwd=workdir)
-        return k, path, rc, out
+        return k0, n, path, rc, out
 
     failing = set()
     with concurrent.futures.ThreadPoolExecutor(max_workers=NPROC) as ex:
-        for k, path, rc, out in ex.map(one, files):
+        for k0, n, path, rc, out in ex.map(one, files):
             if rc != 0:
                 raise HarnessError('coqc failed on %s:\n%s' % (path, out[-3000:]))
-            m = re.search(r'=\s*(\[.*?\])\s*:\s*list nat', out, re.S)
+            m = re.search(r'=\s*\((\d+)(?:%nat)?\s*,\s*(\[.*?\])(?:%nat)?\s*\)\s*:\s*nat \* list nat', out, re.S)
             if not m:
                 raise HarnessError('cannot parse coqc output for %s:\n%s' % (path, out[-2000:]))
-            for n in re.findall(r'\d+', m.group(1)):
-                failing.add(k + int(n))
+            if int(m.group(1)) != n * width:
+                raise HarnessError('%s: %s booleans evaluated, %d expected' % (path, m.group(1), n * width))
+            for x in re.findall(r'\d+', m.group(2)):
+                failing.add(k0 * width + int(x))
     return failing
 
 
